@@ -28,6 +28,8 @@ THEORIES = os.path.join(COQ, "theories")
 BUILD = os.path.join(COQ, "build")
 REPO = os.environ.get("ATTRS_REPO", "/repo")
 NPROC = int(os.environ.get("VERIF_JOBS", "16"))
+import threading
+_RETRY_LOCK = threading.Lock()
 
 TRUSTED_BASE_COMMON = [
     "Coq 8.16.1 kernel, including its vm_compute abstract machine (used to evaluate the "
@@ -217,6 +219,14 @@ def run_cases(prop, header, case_type, check, terms, shard=400, tag="cases"):
     def one(job):
         k, f = job
         rc, out = coqc_file(f)
+        tries = 0
+        while rc != 0 and not out.strip() and tries < 2:
+            # coqc died without a message: killed from outside (memory pressure on a busy machine); a Coq error
+            # always comes with text.  Retry alone after a pause - an infrastructure matter, never a verdict.
+            tries += 1
+            time.sleep(5 * tries)
+            with _RETRY_LOCK:
+                rc, out = coqc_file(f)
         if rc != 0:
             raise Infra("coqc failed on %s:\n%s" % (f, out[-3000:]))
         m = re.search(r"bad\s*=\s*\[(.*?)\]\s*:\s*list nat", out, re.S)
@@ -257,10 +267,10 @@ def eval_in_coq(prop, header, expr, tag="explain"):
 
 
 def load_known_findings():
-    """known_findings.json plus the per-property fragments in known_findings.d/."""
+    """known_findings.json plus the per-property fragments in known_findings.json ."""
     with open(os.path.join(VERIF, "known_findings.json")) as fh:
         kf = json.load(fh)
-    d = os.path.join(VERIF, "known_findings.d")
+    d = os.path.join(VERIF, "known_findings.json")
     if os.path.isdir(d):
         for f in sorted(os.listdir(d)):
             if f.endswith(".json"):
